@@ -249,6 +249,7 @@ int main() {
         } catch (const std::exception& e) {
             std::cout << "error " << e.what() << "\n";
         }
+        std::cout.flush();
     }
     return 0;
 }
